@@ -81,6 +81,16 @@ add("C17", "tds-sim", "fault_enumeration",
     "Trusted: PF success is re-examined with the routine's own residual evaluation; for corrupt input an exception that would end the CLI with "
     "non-zero status counts as reported. Undetectable corruption (a still-valid file) is not demanded.", "DESIGN.md section 4, C17")
 
+add("C05", "tds-sim", "exploration",
+    "deterministic simulation: every stock case initialised and simulated flat under seeded knobs, resumed segments, simulated wall clocks (qrt) and corrupted power-flow hand-over",
+    "Partial claim (simulation clauses over the stock catalogue). Every loadable stock case with states is initialised and run without any "
+    "disturbance under seeded method/step/solver/tolerance, split into resumed segments, optionally under quasi-real-time stepping with a "
+    "simulated steady/slow/jumpy/stalled/fast wall clock. test_ok must equal the simulator's own reading of the residuals, bus slots must carry "
+    "the power-flow solution bit-exactly, stock data measured consistent must keep initialising, and with every limiter strictly inside the "
+    "state must not move (<= 20x the init residual). A corrupted hand-over must be reported (test_ok False, exit code, run() not True).",
+    "Not claimed: combinations of dynamic models that no stock case contains (pure input generation). Trusted: limiter flags zl/zu as the "
+    "precondition; zero-time-constant states are excluded from the drift measure.", "DESIGN.md section 4, C05")
+
 ENGINES = [
     {"name": "tds-sim", "path": "dst/tdssim.py", "kind_free_text": "real TDS loop under StepTap/SolverTap/TimerTap/StoreTap/ConnTap "
      "seams with seeded plans (events, segments, restarts, solver/disk/clock faults, crash points)", "serves_properties": []},
